@@ -458,6 +458,21 @@ def main():
             raise Unrecognised("BuiltinRef parameters are not the dunder's arguments in order: " + un(call))
         return builtin_id(call.args[1]), len(extra)
 
+    method_bin = []
+    for name, fn in methods(by_name["BaseRef"][2]).items():
+        if name.startswith("__") or fn.decorator_list:
+            continue
+        body = strip_doc(fn.body)
+        params = [a.arg for a in fn.args.args][1:]
+        if (len(body) == 1 and isinstance(body[0], ast.Return) and isinstance(body[0].value, ast.Call)
+                and isinstance(body[0].value.func, ast.Name) and body[0].value.func.id in by_name
+                and "BinOpExpr" in mro_names(body[0].value.func.id, by_name)):
+            call = body[0].value
+            argn = [a.id if isinstance(a, ast.Name) else None for a in call.args]
+            if params == ["other"] and argn == ["self", "other"] and not call.keywords and not fn.args.defaults:
+                method_bin.append((name, call.func.id, "OSelfOther"))
+            else:
+                raise Unrecognised(f"method {name} builds {un(call)}")
     for cname in ("BaseRef", "ObjectAttrRef"):
         for name, fn in methods(by_name[cname][2]).items():
             body = strip_doc(fn.body)
@@ -586,6 +601,10 @@ def main():
     w("")
     w("Definition dunder_bin : list (pystr * N * argorder) :=\n  [ " +
       ";\n    ".join(f"({coq_string_codes(d)}, {N(cid(k))}, {o}) {comment(d + ' -> ' + k)}" for d, k, o in dunder_bin) + " ].")
+    w("")
+    w("(* plain methods of BaseRef that build a binary node: ref._eq(other), ref._neq(other) *)")
+    w("Definition method_bin : list (pystr * N * argorder) :=\n  [ " +
+      ";\n    ".join(f"({coq_string_codes(d)}, {N(cid(k))}, {o}) {comment(d + ' -> ' + k)}" for d, k, o in method_bin) + " ].")
     w("")
     w("Definition dunder_un : list (pystr * N) :=\n  [ " +
       ";\n    ".join(f"({coq_string_codes(d)}, {N(cid(k))}) {comment(d + ' -> ' + k)}" for d, k in dunder_un) + " ].")
